@@ -137,6 +137,34 @@ def gen_cases(rng, tier):
         cases.append({'kind': 'expect', 'norb': norb, 'mode': mode, 'n': nn, 'sz': sz, 'ham': ham,
                       'ket': fqeio.random_state(rng, norb, keys, density=0.8, amp=2),
                       'bra': fqeio.random_state(rng, norb, keys, density=0.8, amp=2) if rng.random() < 0.5 else None})
+    # transition quantities must not depend on the ORDER in which the sectors of the bra were created (same sectors, same
+    # amplitudes): multi-sector wavefunctions of both broken-symmetry modes, every rank-1 and rank-2 pattern family
+    for k in range(9 if tier == 'quick' else 45):
+        mode = ['bare', 'nb', 'sb'][k % 3]
+        norb = rng.randint(2, 3)
+        if mode == 'sb':
+            nn, sz = rng.randint(1, 2 * norb - 1), 0
+            keys = fqeio.sector_keys(norb, mode, nn, sz)
+        elif mode == 'nb':
+            nn, sz = 0, rng.randint(-norb + 1, norb - 1)
+            keys = fqeio.sector_keys(norb, mode, nn, sz)
+        else:
+            # wavefunctions from the bare constructor (default symmetry flags) holding several particle numbers of one s_z
+            nn, sz = 0, rng.choice([0, 0, 1, -1])
+            allk = [(n, sz) for n in range(abs(sz), 2 * norb - abs(sz) + 1, 2)]
+            keys = sorted(rng.sample(allk, min(len(allk), rng.randint(2, 3))))
+        if len(keys) < 2:
+            continue
+        pat = rng.choice(patterns(1, mode != 'sb') + patterns(2, mode != 'sb'))
+        cases.append({'kind': 'order', 'norb': norb, 'mode': mode, 'n': nn, 'sz': sz, 'pat': pat,
+                      'keys': [list(x) for x in keys],
+                      'ket': fqeio.random_state(rng, norb, keys, density=0.9, amp=2),
+                      'bra': fqeio.random_state(rng, norb, keys, density=0.9, amp=2)})
+    for k, c in enumerate(cases):
+        if c['kind'] in ('rdm', 'expect') and k % 3 == 1 and not c.get('big'):
+            c['prelude'] = True
+        if c.get('bra') and c.get('mode') in ('sb', 'nb') and k % 2 == 0:
+            c['bra_order'] = 'rev'
     return cases
 
 
@@ -145,8 +173,45 @@ def run_impl(case, mode):
     import numpy
     import fqe
     norb = case['norb']
+    if case['kind'] == 'order':
+        keys = [tuple(x) for x in case['keys']]
+        br = {'sb': ['spin'], 'nb': ['number'], 'bare': None}[case['mode']]
+        ket = fqe.Wavefunction([[k[0], k[1], norb] for k in keys], broken=br)
+        fqeio.set_state(ket, case['ket'])
+        outs = []
+        for order in (keys, list(reversed(keys)), keys[1:] + keys[:1]):
+            b = fqe.Wavefunction([[k[0], k[1], norb] for k in order], broken=br)
+            fqeio.set_state(b, case['bra'])
+            try:
+                t = numpy.asarray(ket.rdm(pat_string(case['pat'], case.get('letters')), brawfn=b))
+                outs.append([[float(z.real), float(z.imag)] for z in t.reshape(-1)])
+            except Exception as e:  # noqa
+                outs.append('exc:' + type(e).__name__)
+        return {'outs': outs}
     ket = fqeio.make_wfn(norb, case['mode'], case['n'], case['sz'], case['ket'])
     bra = fqeio.make_wfn(norb, case['mode'], case['n'], case['sz'], case['bra']) if case['bra'] else None
+    if bra is not None and case.get('bra_order') == 'rev' and case['mode'] in ('sb', 'nb'):
+        # the same sectors created in the opposite order (sector dictionaries of bra and ket then iterate differently)
+        keys = fqeio.sector_keys(norb, case['mode'], case['n'], case['sz'])
+        bra = fqe.Wavefunction([[k[0], k[1], norb] for k in reversed(keys)], broken=['spin'] if case['mode'] == 'sb' else ['number'])
+        fqeio.set_state(bra, case['bra'])
+    if case.get('prelude'):
+        # the ket reaches its amplitudes through IN-PLACE updates of a held object on which the same quantity was
+        # requested before (2 psi, request, back to psi): results must be those of the current coefficients
+        import copy
+        other = copy.deepcopy(ket)
+        ket.ax_plus_y(1.0, other)
+        try:
+            if case['kind'] == 'rdm':
+                ket.rdm(pat_string(case['pat'], case.get('letters')), brawfn=bra)
+            elif case['kind'] == 'expect':
+                ket.expectationValue(c01.build_ham(case['ham'], norb), brawfn=bra)
+            for key in ket.sectors():
+                sec = ket.sector(key)
+                sec.get_openfermion_rdms()
+        except Exception:  # noqa
+            pass
+        ket.ax_plus_y(-1.0, other)
     before = fqeio.read_state(ket)
     if case['kind'] == 'rdm':
         t = ket.rdm(pat_string(case['pat'], case.get('letters')), brawfn=bra)
@@ -168,6 +233,8 @@ def run_impl(case, mode):
 
 # ------------------------------------------------------------------ model
 def expected(model, case):
+    if case['kind'] == 'order':
+        return {}
     norb = case['norb']
     ket = case['ket']
     bra = case['bra'] if case['bra'] else case['ket']
@@ -192,6 +259,18 @@ def compare(case, got, exp, mode):
     if 'exc' in got or 'crash' in got:
         return ['raised %s: %s' % (got.get('exc', 'CRASH'), str({k: got[k] for k in got if k != 'tb'})[:300])]
     bad = []
+    if case['kind'] == 'order':
+        o = got['outs']
+        ref = o[0]
+        for tag, other in (('reversed', o[1]), ('rotated', o[2])):
+            if isinstance(ref, str) or isinstance(other, str):
+                if ref != other:
+                    bad.append('rdm with a bra whose sectors were created in %s order: %s, in sorted order: %s' % (tag, str(other)[:60], str(ref)[:60]))
+                continue
+            d = max([abs(x[0] - y[0]) + abs(x[1] - y[1]) for x, y in zip(ref, other)] + [0.0])
+            if d > 1e-12 or len(ref) != len(other):
+                bad.append('transition RDM depends on the order in which the sectors of the bra were created (%s vs sorted): max difference %.3g' % (tag, d))
+        return bad
     if case['kind'] == 'rdm':
         if got['shape'] != exp['shape']:
             return ['rdm shape %s, expected %s' % (got['shape'], exp['shape'])]
@@ -233,6 +312,8 @@ def classify(case, mode, bad, got, exp):
 
 
 def nontrivial(case, exp):
+    if case['kind'] == 'order':
+        return True
     if case['kind'] == 'rdm':
         vals = set(zip(exp['re'], exp['im'])) - {(0, 0)}
         return len(vals) >= 2
